@@ -26,7 +26,7 @@ func init() {
 		Assumptions: []string{
 			"values used with ReadCSV contain no CR and (when nulls are present) no empty string; values used with ReadJSON are valid UTF-8",
 		},
-		Stages:  stages(600, 25000, 0, 0),
+		Stages:  stages(3000, 80000, 0, 0),
 		RunCase: runC17,
 	})
 }
